@@ -21,4 +21,28 @@ claim('C07', 'model_checking', 'tlc-emit-replay', 'TLA+ spec NixAxis + TLC (exha
       'axes with positions on, one ulp beside, between and beyond coordinates (oracle re-derived from exact comparisons of doubles).',
       'Trusted: TLC, harness/axes.hpp (coordinates computed as double(i)*interval+offset and cross-checked with positionAt/tickAt). '
       'Concrete intervals/offsets/ticks are a finite dictionary; window n<=3 (quick) / 5 (thorough).', 'DESIGN.md section 5 (C07)')
+FILE_NOTE = ('Trusted: TLC, harness/h_file.cpp (executor, observer, concretiser). Bounds: see evidence (creations per history, names, '
+             'history length); beyond them only random behaviours. Abstract names/types/attribute bundles are mapped through finite dictionaries.')
+claim('C02', 'model_checking', 'tlc-emit-replay', 'TLA+ spec NixFile + TLC (BFS + simulation) + per-transition replay with full-state observation',
+      'ReopenIdentity/CloseSaves/FlushSaves are checked by TLC on the design for every bounded history; every Open transition TLC explores is '
+      'executed against the library and the complete projected file state after the reopen is compared with the specification.', FILE_NOTE, 'DESIGN.md section 5 (C02)')
+claim('C03', 'model_checking', 'tlc-emit-replay', 'TLA+ spec NixFile + TLC (BFS + simulation) + per-transition replay; observer cross-checks all look-up paths',
+      'NamesUniqueInv/OrderInv hold in every reachable state of the design; every create/delete/link/reopen transition is executed and names, '
+      'order, counts and the mutual agreement of all look-up paths of every container are compared.', FILE_NOTE, 'DESIGN.md section 5 (C03)')
+claim('C04', 'model_checking', 'tlc-emit-replay', 'TLA+ spec NixFile + TLC (BFS over link graphs + simulation) + per-transition replay',
+      'NoDanglingInv and DeleteFrame hold on the design for every bounded link graph and victim; every Delete transition (by name/id/handle) is '
+      'executed and all survivors, all containers/links and the validity of all retained handles are compared. One recorded deviation '
+      '(C04-zombie) is predicted exactly by the specification.', FILE_NOTE, 'DESIGN.md section 5 (C04)')
+claim('C08', 'model_checking', 'tlc-emit-replay', 'TLA+ spec NixFile + TLC (every rejected self-loop in every reachable state) + replay incl. close/reopen',
+      'RejectFrame holds on the design; every rejected call TLC enumerates in every reachable state is executed: it must throw and leave the '
+      'complete observation unchanged, in the session and after close+reopen.', FILE_NOTE + ' Rejections of data/dimension/property/frame calls are judged in their own modules.', 'DESIGN.md section 5 (C08)')
+claim('C09', 'model_checking', 'tlc-emit-replay', 'TLA+ specs NixFile (read-only sessions) and NixVersion (modes, header defects) + TLC + replay with byte hash',
+      'ReadOnlyFrame/ReadOnlyRejects/RWPreserves/OverwriteEmpties/RefuseWithoutHeader hold on the design; every mutator in every reachable '
+      'file state is attempted in a read-only session (must throw, observation and file bytes unchanged) and every header-defect / mode '
+      'transition is executed.', FILE_NOTE, 'DESIGN.md section 5 (C09)')
+claim('C11', 'model_checking', 'tlc-emit-replay', 'TLA+ spec NixFile with Flush/Close/Crash/Open + TLC + replay with SIGKILL of the writing child process',
+      'DurableAfterFlush/FlushSaves/CloseSaves hold on the design for all bounded histories with up to 4 life-cycle events; every '
+      'Close/Crash/Open transition is executed: the writer is killed with SIGKILL at the crash point while holding all handles, the parent '
+      'reopens in every mode and compares the full observation; closed handles must throw, descriptors must be released.',
+      FILE_NOTE + ' Crash = kill of the process (page cache survives), not of the machine; opening for write counts as a modification.', 'DESIGN.md section 5 (C11)')
 ENGINES[0]['serves_properties'] = sorted(CLAIMED)
